@@ -29,7 +29,7 @@ class C20(C10):
     ID = 'C20'
     PROPS = 'props/C20.v'
     QUICK_CASES = 150
-    THOROUGH_CASES = 4000
+    THOROUGH_CASES = 1500
     RULE = ('generated DEF FN sets (1..4 functions, 0..4 parameters of all four types, parameters that shadow globals '
             'and parameters that do not exist yet, bodies that read parameters and globals, allocate strings, call '
             'FRE("") and other functions, self- and mutually recursive), optional CLEAR ,n (30 bytes .. default), then '
@@ -37,6 +37,8 @@ class C20(C10):
             'all variables, current, _temp and free memory compared with the model after every step; oracle: dict '
             'reference semantics in which a call binds, evaluates and restores. non-trivial = a function call returned')
     TRUSTED = C10.TRUSTED
+    PARTIAL = ('binding of the parameters to the converted arguments during the body (C20_binding_statement) is '
+               'tested by correspondence and the oracle, not proved')
 
     def corpus(self):
         return [dict(w) for w in (W_D15, W_D20A, W_D20B, W_ARGERR, W_RECURSION, W_D10D_ALIAS)] + [
